@@ -212,7 +212,7 @@ Qed.
 Lemma nulls_ok3_cols_ext cs r cs' r' e :
   (forall c, In c (expr_cols e) -> get cs r c = get cs' r' c) -> nulls_ok3 cs r e -> nulls_ok3 cs' r' e.
 Proof.
-  intros H [A [B C]]. unfold nulls_ok3.
+  intros H [A B]. unfold nulls_ok3.
   rewrite <- !(expr_nulls_ok_cols_ext _ cs r cs' r' e H). auto.
 Qed.
 
